@@ -219,6 +219,24 @@ def _compile_map(ctx, src, d, name):
     return out
 
 
+def _absent_then_present(ctx, envz, name, kabs, k, z):
+    T = "2012-07-01T12:00:00"
+    r0 = tools.run([ctx.build.tool("dconv", "san"), "--zone", "%s:%s" % (name, kabs), T], env=envz, timeout=20)
+    if r0.crashed or r0.rc not in (1, 2):
+        return ("dconv", "refusal (exit 1), no crash", r0.brief())
+    r1 = tools.run([ctx.build.tool("dzone", "san"), "%s:%s" % (name, kabs), "%s:%s" % (name, k), T], env=envz, timeout=20)
+    r2 = tools.run([ctx.build.tool("dzone", "san"), z, T], env=envz, timeout=20)
+    w = r2.out.split(b"\t")[0]
+    # (dzone prints at most 256 bytes per line: a long name comes out cut short)
+    full = ("%s:%s" % (name, k)).encode()
+    g = [ln.split(b"\t")[0] for ln in r1.out.split(b"\n")
+         if b"\t" in ln and (ln.split(b"\t")[1] == full or (len(ln) >= 255 and full.startswith(ln.split(b"\t")[1])))]
+    if r1.crashed or (b"\t" in r2.out and g != [w]):
+        # (a map value that names no zone file is not usable either way: only the clean exit counts)
+        return ("dzone", w.decode("latin-1"), r1.brief())
+    return None
+
+
 def mapfid(ctx, shard, nshards):
     sub = Sub("c19.mapfid")
     V = Viol(sub, "C19")
@@ -281,6 +299,15 @@ def mapfid(ctx, shard, nshards):
                 if r1.crashed or r1.out != r2.out or r1.rc != r2.rc:
                     V.add("map:dconv", {"src": src, "key": k, "zone": z, "kind": "mapdconv"}, expected=r2.out.decode("latin-1"),
                           actual=r1.brief(), weight=len(src))
+            # an absent key is refused cleanly, alone and in front of a present key of the same map
+            for kabs in rnd.sample(ab, min(len(ab), 3)):
+                k, z = rnd.choice(src)
+                bad = _absent_then_present(ctx, envz, name, kabs, k, z)
+                sub.evaluations += 1
+                sub.nt((it, shard, "absent", kabs))
+                if bad:
+                    V.add("map:absent-tool:%s" % bad[0], {"src": src, "absent": kabs, "key": k, "zone": z, "kind": "mapabsent"},
+                          expected=bad[1], actual=bad[2], weight=len(src))
             os.unlink(out)
     finally:
         shutil.rmtree(d, ignore_errors=True)
@@ -366,6 +393,9 @@ def replay(ctx, subname, case):
         if k == "mapshow":
             r = tools.run([ctx.build.tool("tzmap", "san"), "show", "-f", out, "--"] + case["keys"], env=env, timeout=30)
             return None if (r.lines() == case["want"] and not r.crashed) else {"expected": case["want"][:5], "actual": r.lines()[:5]}
+        if k == "mapabsent":
+            bad = _absent_then_present(ctx, env, "m", case["absent"], case["key"], case["zone"])
+            return None if not bad else {"tool": bad[0], "expected": bad[1], "actual": bad[2]}
         r1 = tools.run([ctx.build.tool("dconv", "san"), "--zone", "m:%s" % case["key"], "-f", "%FT%T%Z", "2012-07-01T12:00:00"], env=env, timeout=20)
         r2 = tools.run([ctx.build.tool("dconv", "san"), "--zone", case["zone"], "-f", "%FT%T%Z", "2012-07-01T12:00:00"], env=env, timeout=20)
         return None if (r1.out == r2.out and not r1.crashed) else {"expected": r2.out.decode("latin-1"), "actual": r1.brief()}
